@@ -297,7 +297,11 @@ func cmdCheck(args []string) int {
 		progOf[h.Name] = hp
 		fn := hp.Harness[h.Name]
 		if fn == nil {
-			problems = append(problems, "harness "+h.Name+" not found")
+			why := "harness " + h.Name + " not found"
+			for f, e := range hp.Dropped {
+				why = fmt.Sprintf("harness %s unavailable: harness file %s no longer type-checks against the tree (%s)", h.Name, f, clip(e, 300))
+			}
+			problems = append(problems, why)
 			continue
 		}
 		solver := h.Solver
